@@ -208,6 +208,19 @@ CHECKS = {
         note='Partial (see text). Trusted: Lean kernel; standard axioms; that bracket matching read off the token tree equals bracket matching on the token sequence (true for derivations, '
              'C05) ; CPython arithmetic on the value domain (exact ints, binary64 as rn of exact rationals); float(text) correctly rounded; text forms under & for ints only.',
         technique='Lean 4 proof (exactness of grouping for all inputs; full operator table by kernel evaluation) + differential correspondence with an independent parser as spec', design='5/C01'),
+    'C12': dict(
+        text='Lean 4 theorems over the model of the (repaired) criteria engine _criterion and of _sumifs / _countifs / _sum_if: the operator prefix of a criterion text is decoded as '
+             'written (split_ge / _le / _ne / _gt / _lt / _eq / _plain), numbers and blank criterion cells are equality on numbers (decode_number), operator-prefixed numbers and texts '
+             'decode to that operator and value (decode_op_number, decode_op_text); numeric criteria compare exactly with numeric cells and are never met by text / blank cells '
+             'except <> (accepts_num); text criteria match the WHOLE cell case-insensitively with ? * ~ wildcards, <> is the negation (accepts_text_eq), a pattern without '
+             'wildcard characters matches exactly the texts equal up to case (matchAll_plain); position i is selected exactly when every pair accepts the i-th cell of its range '
+             '(selectMask_spec), SUMIFS / COUNTIFS fold exactly the selected positions (sumifs_select, countifs_select), ranges of different sizes are an error (misaligned_error). '
+             'Tie B: every (criterion, rendering, cell) of a grid through _criterion of both runtime copies vs the decoding model and the structured meaning; SUMIFS / COUNTIFS / '
+             'SUMIF formulas with 1-3 pairs, criteria as literals, assembled with &, held by cells, misaligned ranges; AVERAGEIFS = SUMIFS / COUNTIFS on the real code.',
+        note='Trusted: Lean kernel; standard axioms; float(text) (theorem parameter P); Python re.fullmatch for the generated pattern (modelled by matchAll, validated per case). '
+             'Outside the model and the spec: date criteria and criterion texts containing digits that are not numbers (dateutil is tried on them), blank / boolean cells inside '
+             'criteria ranges (the code casts them to 0 / 1; the statement is silent) - compared with the model where it has one. AVERAGEIFS is checked by a law, not modelled.',
+        technique='Lean 4 proof over hand model + differential correspondence (both runtime copies) + law on the real code', design='5/C12'),
 }
 
 WIP = set()   # built, proofs in progress: not claimed until green
